@@ -45,6 +45,10 @@ def main():
 
             if job["mode"] == "batch":
                 out.update(engine_a.run_batch(job, boot.TREE))
+            elif job["mode"] == "reload_stage":
+                from sim import c08
+
+                out.update(c08.reload_stage(job["items"], boot.TREE))
             elif job["mode"] == "replay_many":
                 res = []
                 for ops in job["candidates"]:
